@@ -177,6 +177,13 @@ func main() {
 						fmt.Fprintln(os.Stderr, "world:", err)
 						os.Exit(2)
 					}
+					if p.Parents && len(p.Locs) >= 3 && *via == "" && g.R.Intn(2) == 0 {
+						// start from a hierarchy in which one ancestor is reachable over two routes (no loop, no forest)
+						pm := g.R.Perm(len(p.Locs))
+						a, b, c := p.Locs[pm[0]], p.Locs[pm[1]], p.Locs[pm[2]]
+						w.Do(world.Op{Op: "SetParents", Loc: a, Names: []string{b, c}})
+						w.Do(world.Op{Op: "SetParents", Loc: b, Names: []string{c}})
+					}
 					for k := 0; k < p.Len; k++ {
 						op := g.Next()
 						if op.Op == "Restart" && !(*via == "system" && *store == "bolt") {
